@@ -32,12 +32,13 @@ def gen_module(initp, changesets, name="MCgen"):
             (name, ", ".join(map(str, initp)), ", ".join(changesets)))
 
 
-def gen_cfg(params, maxblocks, maxprunes, invariants=("Inv",), dump=True, impl=(False, False, False, False, False), upgrade_at=0):
+def gen_cfg(params, maxblocks, maxprunes, invariants=("Inv",), dump=True, impl=(False, False, False, False, False), upgrade_at=0,
+            initial_height=1):
     b = lambda x: "TRUE" if x else "FALSE"
-    s = ("SPECIFICATION Spec\nCONSTANTS\n  Cap = 1000000\n  InitPowers <- InitP\n  ChangeSets <- ChSets\n  ParamsU = %s\n"
+    s = ("SPECIFICATION Spec\nCONSTANTS\n  Cap = 1000000\n  InitialHeight = %d\n  InitPowers <- InitP\n  ChangeSets <- ChSets\n  ParamsU = %s\n"
          "  MaxBlocks = %d\n  MaxPrunes = %d\n  ImplKey = %s\n  ImplPrune = %s\n  ImplLookups = %s\n  ImplGenesis = %s\n"
          "  ImplPerHeight = %s\n  ImplUpgradeAt = %d\nVIEW View\n") % (
-        params, maxblocks, maxprunes, b(impl[0]), b(impl[1]), b(impl[2]), b(impl[3]), b(impl[4]), upgrade_at)
+        initial_height, params, maxblocks, maxprunes, b(impl[0]), b(impl[1]), b(impl[2]), b(impl[3]), b(impl[4]), upgrade_at)
     for i in invariants:
         s += "INVARIANT %s\n" % i
     if dump:
@@ -85,9 +86,10 @@ REQUIRED_SCRIPTS = ["static", "consecutive-changes", "return-to-earlier-membersh
                     "removal-of-next-proposer", "prune", "blocks-after-prune", "rejected-change-set"]
 
 
-def tlc_dump(c, tag, initp, changesets, params, blocks, prunes, dump, upgrade_at=0):
+def tlc_dump(c, tag, initp, changesets, params, blocks, prunes, dump, upgrade_at=0, initial_height=1):
     files = {"MCgen.tla": gen_module(initp, changesets), "ValidatorSet.tla": VALSET,
-             "MCgen.cfg": gen_cfg(params, blocks, prunes, dump=dump is not None, impl=CODE_MODEL, upgrade_at=upgrade_at)}
+             "MCgen.cfg": gen_cfg(params, blocks, prunes, dump=dump is not None, impl=CODE_MODEL, upgrade_at=upgrade_at,
+                                  initial_height=initial_height)}
     r = c.tlc("cstore", "MCgen.cfg", module="MCgen", files=files, dump_to=dump, timeout=5400, workers=WORKERS,
               tag="MC_CStateStore %s blocks<=%d prunes<=%d%s" % (tag, blocks, prunes, "" if dump else " (invariants only)"))
     if r.violated:
@@ -188,6 +190,17 @@ def run(c):
         g["extra"] = {"mismatch_counts:olddb": (g.get("extra") or {}).get("mismatch_counts", {})}
         c.absorb(g)
         os.remove(dump)
+
+    # a genesis document with initial_height 5: the two "last changed" heights of the genesis state are 5 while the store
+    # keeps working with LastBlockHeight-relative heights (genesis Validators = the set of height 1); same replay
+    tag, initp, changesets, params, q, t = UNIVERSES[0]
+    dump = os.path.join(c.scratch, "cstore-ih.dump")
+    tlc_dump(c, tag + " (InitialHeight 5)", initp, changesets, "{1}", 6 if th else 4, 1, dump, initial_height=5)
+    g = c.gotest("cstore", "TestReplay", env=goenv(CSTORE_DUMP=dump, CSTORE_INIT=",".join(map(str, initp)), CSTORE_IH=5),
+                 timeout=5400, tag="replay %s, InitialHeight 5" % tag)
+    g["extra"] = {"mismatch_counts:initial-height-5": (g.get("extra") or {}).get("mismatch_counts", {})}
+    c.absorb(g)
+    os.remove(dump)
 
     # the Start transition (history <<>>) on the real start-up path: NewBlockChain + LoadStateFromDBOrGenesisDoc, twice
     g = c.gotest("cstore", "TestGenesisRestart", env=goenv(), timeout=1800, tag="real genesis, restart before block 1")
